@@ -471,6 +471,9 @@ pub fn run(run: &mut Run) -> PResult {
     run.assume("opt-level 0 is assumed equivalent to the two opt-level-3 profiles executed (ckc-rs has no cfg(debug_assertions) code)");
     run.assume("no value is asserted for six/seven-slot hands containing blanks or for hands with repeated cards: the property only demands a normal return there");
     run.assume("non-termination cannot be decided by testing: a hang is reported as INCONCLUSIVE (exit 2) by the watchdog");
+    if run.sub.is_none() {
+        super::regress::replay_dir(run, "C05", check_case)?;
+    }
     run_profile(run)?;
     if run.sub.is_some() {
         return Ok(());
